@@ -90,7 +90,7 @@ func c08Prepare(c *Ctx) (map[string]string, []Entry, error) {
 			short = short[:90] + "…"
 		}
 		entries = append(entries, Entry{Fn: fmt.Sprintf("Harness_C08_entry_p%d", i), Tiers: "both", Reach: []string{"end"},
-			Bounds: "pattern: " + short + " ; 16 expression shapes with symbolic leaves; EntryNodes as computed by the real parser"})
+			Bounds: "pattern: " + short + " ; 19 expression shapes with symbolic leaves; EntryNodes as computed by the real parser"})
 	}
 	entries = append(entries, Entry{Fn: "Harness_C08_symbol_names", Tiers: "both", Reach: []string{"end"},
 		Bounds: "symbol names path.Ident, (path.Type).Ident, (*path.Type).Ident; 5 path shapes with dots and slashes; all letters symbolic"})
@@ -105,7 +105,7 @@ func init() {
 			Assumptions: []string{
 				"kernel: entry node kinds (pattern/parser.go collectEntryNodes, nodeToASTTypes) and symbol-name parsing (symbolToIndexSymbol); the candidate enumeration through the type index (code.Matches / CouldMatchAny / typeindex.Calls) needs type-checked packages and is outside the claim",
 				"a node counts as matched at the kind Match sees after unwrapping the transparent wrappers (ParenExpr, ExprStmt, ...)",
-				"patterns without type information (no Symbol/Object/Builtin nodes); 16 expression shapes",
+				"patterns without type information (no Symbol/Object/Builtin nodes); 19 expression shapes",
 			},
 		}
 		// the one listed finding: a type symbol reached only through an alias
